@@ -227,7 +227,30 @@ def run(ctx):
             if k in seen_sigs:
                 continue
             seen_sigs.add(k)
-            ctx.add(RULE, fn, 'arith:' + sg, verdict, msg, PROPS + (['C13'] if fn.self_adt in prog.list_adts and fn.family != 'seg' else []), line)
+            ctx.add(RULE, fn, 'arith:' + sg, verdict, msg, PROPS + (['C13'] if fn.self_adt in prog.list_adts and fn.family != 'seg' else []) + (['C07'] if mk == 'array' else []), line)
+        # ---- bounds-checked indexing of arrays / slices (Assert terminators) --------------------------
+        for bb in b.cfg.reach_list():
+            t = b.mir['blocks'][bb]['term']
+            if t['k'] != 'assert' or t['msg'] != 'BoundsCheck':
+                continue
+            ops = b.use_vals.get((bb, 'assert_ops')) or []
+            n['index'] += 1
+            ln, ix = (strip(ops[0]), strip(ops[1])) if len(ops) == 2 else (None, None)
+            line = t['span'][1]
+            sg = 'bounds(%s < %s)' % (sig_operand(prog, fn, ix) if ix is not None else '?', sig_operand(prog, fn, ln) if ln is not None else '?')
+            ok = None
+            if ln is not None and ix is not None:
+                if ln.kind == 'const' and ix.kind == 'const' and isinstance(ln.args[0], int) and isinstance(ix.args[0], int) and ix.args[0] < ln.args[0]:
+                    ok = 'constant index below the constant length'
+                else:
+                    for (g, x, y) in dominating_guards(prog, b, (bb, 10 ** 6)):
+                        if y is not None and g == 'Lt' and same_val(x, ix) and (same_val(y, ln) or (strip(y).kind == 'const' and ln.kind == 'const' and isinstance(strip(y).args[0], int) and strip(y).args[0] <= ln.args[0])):
+                            ok = 'index < length checked on every path'
+            extra = ['C07'] if mk == 'array' else (['C13'] if fn.self_adt in prog.list_adts and fn.family != 'seg' else [])
+            if ok:
+                ctx.add(RULE, fn, 'index:' + sg, 'ok', 'discharged: ' + ok, PROPS + extra, line)
+            else:
+                ctx.add(RULE, fn, 'index:' + sg, 'violation', 'bounds-checked indexing may panic: nothing bounds %s below %s' % (sig_operand(prog, fn, ix) if ix is not None else '?', sig_operand(prog, fn, ln) if ln is not None else '?'), PROPS + extra, line)
         # ---- calls ----------------------------------------------------------------------------
         for c in b.calls:
             if c.point[0] not in b.cfg.reach:
